@@ -628,7 +628,8 @@ Section SoundLit.
     - rewrite vfa_single in H by assumption.
       apply wrap_single_ok in H as (x & Hx & ->).
       constructor. constructor; [|constructor]. apply IHt; [assumption| |assumption].
-      intros y tp w Hat Hy. apply (Hfit y tp w); [|exact Hy]. apply VA_single; assumption.
+      intros y tp w Hat Hy. apply (Hfit y tp w); [|exact Hy]. apply VA_single; [|assumption].
+      destruct l; simpl in *; try discriminate; reflexivity.
   Qed.
 
   Theorem vfa_sound : forall l, lsound_at l.
